@@ -604,7 +604,6 @@ func (grp *Group) validateCPUResourceFit(allQuotas map[string]*groupQuotaAllocat
 					return fmt.Errorf("sub-group cpu limit of %d%% is too large to fit inside group %q with allowed CPU set %v",
 						cpuRequested, parent.Name, limits.CPUSetLimit)
 				}
-				break
 			}
 		}
 		parent = parent.parentGroup
